@@ -4,7 +4,7 @@ import numpy as np
 from .. import core, posecase as pc, niexec
 from ..mtexec import f64_bits, bits_f64
 
-LEAN_MODULES = ["PoseVerif.Props.C09"]
+LEAN_MODULES = ["PoseVerif.Props.C09", "PoseVerif.Props.C09Norm"]
 RULE = ("poses (2-D and 3-D, 1–3 components, 1–2 people, 1–6 frames) with arbitrary missing patterns incl. whole frames, whole components and never-observed points; TWO fillings of the coordinates stored at "
         "missing points drawn from {zeros, small finite, ±3e38, NaN, +inf, −inf, mixtures}; the same random operation sequence (1–4 steps) on both: selection (get_components / remove_components / get_points / "
         "select_frames / slice_step / dropout with a fixed seed), flip, matmul, augment2d with a fixed seed, focus, bbox, interpolate (linear, quadratic, cubic), normalize, normalize_distribution "
@@ -195,7 +195,7 @@ def model_body(case):
     return {"fps": f64([b["fps"]["f32"]])[0], "shape": [b["frames"], b["people"], b["points"], b["dims"]], "data": f64(b["data"]), "conf": f64(b["conf"])}
 
 
-MODELLED = {"select_frames", "slice_step", "get_points", "zero_filled", "copy", "matmul", "flip", "bbox", "focus", "interpolate"}
+MODELLED = {"select_frames", "slice_step", "get_points", "zero_filled", "copy", "matmul", "flip", "bbox", "focus", "interpolate", "normalize", "normalize_distribution", "normalize_unnormalize"}
 
 
 def to_model_ops(case, ops):
@@ -221,6 +221,11 @@ def to_model_ops(case, ops):
             out.append(op); F = (F + op["by"] - 1) // op["by"]; fps /= op["by"]
         elif k == "get_points":
             out.append(op); break
+        elif k == "normalize":
+            out.append({"k": k, "p1": op["p1"], "p2": op["p2"], "scale": f64_bits(float(op.get("scale", 1)))})
+        elif k in ("normalize_distribution", "normalize_unnormalize"):
+            if op["axis"] not in ([0, 1], [0, 1, 2]): break
+            out.append({"k": "normalize_distribution", "all_points": op["axis"] == [0, 1, 2], "unnormalize": k == "normalize_unnormalize"})
         else:
             out.append(op)
     return out
@@ -328,6 +333,8 @@ def run(ctx):
             for st in steps:
                 if set(st) == {"dimensions"}:
                     dims = st["dimensions"]; continue
+                if "zf" not in st and "error" not in st:                 # statistics reported by a normaliser: not a body view
+                    continue
                 st = dict(st)
                 if dims is not None:
                     st["dimensions"] = dims; dims = None
@@ -344,6 +351,8 @@ def run(ctx):
                     ctx.violation("the implementation raises where the model does not", info, {"step": i, "error": impl[i].get("error") if i < len(impl) else None}, False)
                 break
             if "error" in st:
+                if i >= 1 and mops[i - 1]["k"].startswith("normalize"):           # reference points never jointly observed: outside the model (C13 owns the preconditions)
+                    ctx.count("model_precondition_skips"); break
                 ctx.violation("the model refuses an operation the implementation performs", info, {"step": i}, False); break
             iv = impl[i]["body"]
             mv = mview(st)
@@ -357,7 +366,10 @@ def run(ctx):
             if same:
                 a = np.array([np.nan if x == "nan" else np.uint64(x).view(np.float64) for x in iv["zf"]], dtype=np.float64)
                 b = np.array([np.nan if x == "nan" else np.uint64(x).view(np.float64) for x in mv[3]], dtype=np.float64)
-                same = a.shape == b.shape and np.allclose(a, b, rtol=1e-5, atol=1e-6, equal_nan=True)
+                loose = any(o["k"].startswith("normalize") for o in mops[:i])
+                same = a.shape == b.shape and np.allclose(a, b, rtol=5e-4 if loose else 1e-5, atol=5e-4 if loose else 1e-6, equal_nan=True)
+            if not same and any(o["k"].startswith("normalize") for o in mops[:i]):   # zero deviation / degenerate references: numpy masks, the model divides
+                ctx.count("model_precondition_skips"); break
             if not same:
                 ctx.violation("an operation's visible result differs from its model", info, {"step": i, "op": mops[i - 1]["k"] if i else "construct"}, False); break
     representations(ctx)
